@@ -566,8 +566,11 @@ class Project(NamedItem):
         show_progress = n_samples > 1 and logger.getEffectiveLevel() <= logging.INFO
 
         if parallel:
-            fcn = functools.partial(_run_sampled_sim, proj=self, parset=parset, progset=progset, progset_instructions=progset_instructions, result_names=result_names, max_attempts=max_attempts)
-            results = parallel_progress(fcn, n_samples, show_progress=show_progress, num_workers=num_workers)
+            # The workers inherit the state of the random number generator, so without seeding, different workers would draw the same samples.
+            # Each sample is given its own seed, drawn here, so that the samples are independent regardless of which worker runs them
+            seeds = np.random.randint(0, 2**31 - 1, size=n_samples).tolist()
+            fcn = functools.partial(_run_seeded_sampled_sim, proj=self, parset=parset, progset=progset, progset_instructions=progset_instructions, result_names=result_names, max_attempts=max_attempts)
+            results = parallel_progress(fcn, seeds, show_progress=show_progress, num_workers=num_workers)
         elif show_progress:
             # Print the progress bar if the logging level was INFO or lower
             # This means that the user can still set the logging level higher e.g. WARNING to suppress output from Atomica in general
@@ -715,6 +718,21 @@ class Project(NamedItem):
         self.__dict__ = d
         P = migrate(self)
         self.__dict__ = P.__dict__
+
+
+def _run_seeded_sampled_sim(seed: int, **kwargs):
+    """
+    Seed the random number generator, then run a sampled simulation
+
+    This is the task that is run on parallel workers - see :meth:`Project.run_sampled_sims`.
+
+    :param seed: Seed for the numpy random number generator
+    :param kwargs: Arguments for ``_run_sampled_sim``
+    :return: A list of results (the output of ``_run_sampled_sim``)
+
+    """
+    np.random.seed(seed)
+    return _run_sampled_sim(**kwargs)
 
 
 def _run_sampled_sim(proj, parset, progset, progset_instructions: list, result_names: list, max_attempts: int = None):
